@@ -8,12 +8,19 @@
 //!                fault(none | drop-woken:<p> | drop-inflight:<p> | cksum-bad:<alg> | cksum-good:<alg> | metafail |
 //!                infofail | destdir | seed:<n> (concurrent)) hasmeta(0|1) big(0|1: complete_multipart_upload only —
 //!                every part but the last is padded to 5 MiB so that the size rule passes)
+//!                keymode(plain: key `obj` | newparent: key `nd/obj`, directory `nd` does not exist — `done()` has to
+//!                create it, which makes the point between its two awaits visible on disk | parentfile: key
+//!                `pf/obj` where `pf` is a plain file — `create_dir_all` in `done()` fails); `destdir` makes the
+//!                destination itself a directory — the rename in `done()` fails
 //! output fields: code(OK | S3 error code | DROPPED) dest(old|new|absent|other|dir) tmps(number of `.tmp.*` files
 //!                left in the root after everything settled) mdata info(old|new|absent|other|blocked)
-//!                predrop(`-` or `T<0|1>.D<dest>.M<mdata>.I<info>.F<frames pulled>`: the state on disk when the
-//!                future was dropped, only for drop-woken) pends(number of `Pending` seen)
+//!                predrop(`-` or `T<0|1>.D<dest>.M<mdata>.I<info>.F<frames pulled>.N<0|1 parent directory exists>`: the
+//!                state on disk when the future was dropped, only for drop-woken) pends(number of `Pending` seen)
 //!                extra(complete: `U<0|1>P<n>` upload record exists / part files left; concurrent: `W<i>` index of
 //!                the writer whose bytes are stored, `Wnone`, `Wmixed`; else `-`)
+//!                phase(progress when the call ended / was dropped: `B0` body never polled, `B1` polled, `B2`
+//!                exhausted; complete_multipart_upload: `P<n>` part files already consumed)
+//!                pdir(0|1: the destination's parent directory exists at the end)
 //!
 //! `drop-woken:p`   — poll the operation's future; after the p-th `Pending` wait until its waker fired (the awaited
 //!                    blocking operation finished), record the state on disk, then drop the future.
@@ -46,11 +53,11 @@ const PART_MIN: usize = 5 * 1024 * 1024;
 fn b64(s: &str) -> String {
     base64_simd::URL_SAFE_NO_PAD.encode_to_string(s)
 }
-fn meta_path(root: &Path) -> PathBuf {
-    root.join(format!(".bucket-{}.object-{}.metadata.json", b64("b"), b64("obj")))
+fn meta_path(root: &Path, key: &str) -> PathBuf {
+    root.join(format!(".bucket-{}.object-{}.metadata.json", b64("b"), b64(key)))
 }
-fn info_path(root: &Path) -> PathBuf {
-    root.join(format!(".bucket-{}.object-{}.internal.json", b64("b"), b64("obj")))
+fn info_path(root: &Path, key: &str) -> PathBuf {
+    root.join(format!(".bucket-{}.object-{}.internal.json", b64("b"), b64(key)))
 }
 
 fn req<T>(input: T) -> S3Request<T> {
@@ -72,6 +79,8 @@ struct FrameStream {
     next: usize,
     armed: bool,
     pulled: Arc<AtomicUsize>,
+    /// 0 = never polled, 1 = polled, 2 = exhausted
+    progress: Arc<AtomicUsize>,
 }
 
 #[derive(Debug)]
@@ -87,8 +96,10 @@ impl Stream for FrameStream {
     type Item = Result<Bytes, BodyError>;
     fn poll_next(mut self: Pin<&mut Self>, cx: &mut Context<'_>) -> Poll<Option<Self::Item>> {
         if self.next >= self.frames.len() {
+            self.progress.store(2, Ordering::SeqCst);
             return Poll::Ready(None);
         }
+        self.progress.fetch_max(1, Ordering::SeqCst);
         if !self.armed {
             self.armed = true;
             cx.waker().wake_by_ref();
@@ -145,10 +156,12 @@ struct Driven<T> {
     result: Option<T>,
     pends: usize,
     predrop: Option<String>,
+    /// progress marker taken immediately before the future was dropped
+    phase: Option<String>,
 }
 
 /// poll `fut` by hand inside the runtime context
-fn drive<T>(fut: impl Future<Output = T>, mode: DropMode, snapshot: &dyn Fn() -> String) -> Driven<T> {
+fn drive<T>(fut: impl Future<Output = T>, mode: DropMode, snapshot: &dyn Fn() -> String, phase: &dyn Fn() -> String) -> Driven<T> {
     let flag = Arc::new(Flag { woken: Mutex::new(false), cv: Condvar::new() });
     let waker = Waker::from(flag.clone());
     let mut cx = Context::from_waker(&waker);
@@ -156,21 +169,23 @@ fn drive<T>(fut: impl Future<Output = T>, mode: DropMode, snapshot: &dyn Fn() ->
     let mut pends = 0usize;
     loop {
         match fut.as_mut().poll(&mut cx) {
-            Poll::Ready(r) => return Driven { result: Some(r), pends, predrop: None },
+            Poll::Ready(r) => return Driven { result: Some(r), pends, predrop: None, phase: None },
             Poll::Pending => {
                 pends += 1;
                 if mode == DropMode::Inflight(pends) {
+                    let ph = phase();
                     drop(fut);
-                    return Driven { result: None, pends, predrop: None };
+                    return Driven { result: None, pends, predrop: None, phase: Some(ph) };
                 }
                 if !flag.wait() {
                     drop(fut);
-                    return Driven { result: None, pends, predrop: Some("STUCK".to_owned()) };
+                    return Driven { result: None, pends, predrop: Some("STUCK".to_owned()), phase: None };
                 }
                 if mode == DropMode::Woken(pends) {
                     let s = snapshot();
+                    let ph = phase();
                     drop(fut);
-                    return Driven { result: None, pends, predrop: Some(s) };
+                    return Driven { result: None, pends, predrop: Some(s), phase: Some(ph) };
                 }
             }
         }
@@ -186,6 +201,7 @@ fn code_of<T>(r: &S3Result<T>) -> String {
 
 struct Disk {
     root: PathBuf,
+    key: String,
     dest: PathBuf,
     new_content: Vec<u8>,
     new_info: Vec<u8>,
@@ -210,7 +226,7 @@ impl Disk {
         }
     }
     fn mdata_state(&self) -> &'static str {
-        let p = meta_path(&self.root);
+        let p = meta_path(&self.root, &self.key);
         match std::fs::symlink_metadata(&p) {
             Err(_) => "absent",
             Ok(m) if m.is_dir() => "blocked",
@@ -222,7 +238,7 @@ impl Disk {
         }
     }
     fn info_state(&self) -> &'static str {
-        let p = info_path(&self.root);
+        let p = info_path(&self.root, &self.key);
         match std::fs::symlink_metadata(&p) {
             Err(_) => "absent",
             Ok(m) if m.is_dir() => "blocked",
@@ -233,8 +249,11 @@ impl Disk {
             },
         }
     }
+    fn pdir(&self) -> usize {
+        usize::from(self.dest.parent().is_some_and(Path::is_dir))
+    }
     fn state(&self) -> String {
-        format!("{}|{}|{}|{}", self.dest_state(), tmp_count(&self.root), self.mdata_state(), self.info_state())
+        format!("{}|{}|{}|{}|{}", self.dest_state(), tmp_count(&self.root), self.mdata_state(), self.info_state(), self.pdir())
     }
     /// wait until nothing changes any more (blocking tasks of a dropped future may still be running)
     fn settle(&self) {
@@ -302,12 +321,13 @@ fn evaluate(f: &[&str]) -> Vec<String> {
     let fault = f[3];
     let hasmeta = f[4] == "1";
     let big = f.get(5).is_some_and(|x| *x == "1");
+    let keymode = f.get(6).copied().unwrap_or("plain");
     let root = fresh_root();
     let rt = tokio::runtime::Builder::new_multi_thread().worker_threads(4).enable_all().build().expect("runtime");
     let out = if op == "concurrent" {
         run_concurrent(&rt, &root, prev, &frames, fault)
     } else {
-        run_single(&rt, &root, op, prev, &frames, fault, hasmeta, big)
+        run_single(&rt, &root, op, prev, &frames, fault, hasmeta, big, keymode)
     };
     drop(rt);
     let _ = std::fs::remove_dir_all(case_dir());
@@ -332,8 +352,17 @@ fn run_single(
     fault: &str,
     hasmeta: bool,
     big: bool,
+    keymode: &str,
 ) -> Vec<String> {
     let _guard = rt.enter();
+    let key: &str = match (op, keymode) {
+        ("upload_part", _) | (_, "plain") => "obj",
+        (_, "newparent") => "nd/obj",
+        _ => "pf/obj",
+    };
+    if key == "pf/obj" {
+        std::fs::write(root.join("b/pf"), b"a plain file where a directory is needed").expect("parent file");
+    }
     let fs = FileSystem::new(root).expect("FileSystem::new");
     let mode = parse_mode(fault);
     // real part contents (complete_multipart_upload pads every part but the last when `big`)
@@ -360,29 +389,32 @@ fn run_single(
     if op != "put_object" {
         let input = CreateMultipartUploadInput::builder()
             .bucket("b".to_owned())
-            .key("obj".to_owned())
+            .key(key.to_owned())
             .metadata(if op == "complete_multipart_upload" { new_metadata(hasmeta) } else { None })
             .build()
             .unwrap();
         let r = rt.block_on(fs.create_multipart_upload(req(input))).expect("create_multipart_upload");
         upload_id = r.output.upload_id.expect("upload id");
     }
-    let dest = if op == "upload_part" { root.join(format!(".upload_id-{upload_id}.part-1")) } else { root.join("b/obj") };
+    let dest = if op == "upload_part" { root.join(format!(".upload_id-{upload_id}.part-1")) } else { root.join("b").join(key) };
     if prev {
-        std::fs::write(&dest, OLD).expect("old content");
+        // with a missing or blocked parent there cannot be a previous object; its side files can still exist
+        if key == "obj" {
+            std::fs::write(&dest, OLD).expect("old content");
+        }
         if op != "upload_part" {
-            std::fs::write(meta_path(root), OLD_META).expect("old metadata");
-            std::fs::write(info_path(root), OLD_INFO).expect("old info");
+            std::fs::write(meta_path(root, key), OLD_META).expect("old metadata");
+            std::fs::write(info_path(root, key), OLD_INFO).expect("old info");
         }
     }
     match fault {
         "metafail" => {
-            let _ = std::fs::remove_file(meta_path(root));
-            std::fs::create_dir(meta_path(root)).expect("block metadata");
+            let _ = std::fs::remove_file(meta_path(root, key));
+            std::fs::create_dir(meta_path(root, key)).expect("block metadata");
         }
         "infofail" => {
-            let _ = std::fs::remove_file(info_path(root));
-            std::fs::create_dir(info_path(root)).expect("block info");
+            let _ = std::fs::remove_file(info_path(root, key));
+            std::fs::create_dir(info_path(root, key)).expect("block info");
         }
         "destdir" => {
             let _ = std::fs::remove_file(&dest);
@@ -406,26 +438,41 @@ fn run_single(
             }
         }
     }
-    let disk = Disk { root: root.to_path_buf(), dest: dest.clone(), new_content, new_info };
+    let disk = Disk { root: root.to_path_buf(), key: key.to_owned(), dest: dest.clone(), new_content, new_info };
     let pulled = Arc::new(AtomicUsize::new(0));
+    let progress = Arc::new(AtomicUsize::new(0));
     let snapshot = || -> String {
         format!(
-            "T{}.D{}.M{}.I{}.F{}",
+            "T{}.D{}.M{}.I{}.F{}.N{}",
             usize::from(tmp_count(&disk.root) > 0),
             disk.dest_state(),
             disk.mdata_state(),
             disk.info_state(),
-            pulled.load(Ordering::SeqCst)
+            pulled.load(Ordering::SeqCst),
+            disk.pdir()
         )
     };
-    let body = |frames: Vec<Option<Vec<u8>>>| {
-        StreamingBlob::wrap(FrameStream { frames, next: 0, armed: false, pulled: pulled.clone() })
+    let nparts_uploaded = real_parts.iter().flatten().count();
+    let part_files_left = || -> usize {
+        std::fs::read_dir(root)
+            .map(|rd| rd.flatten().filter(|e| e.file_name().to_string_lossy().starts_with(".upload_id-")).count())
+            .unwrap_or(0)
     };
-    let (code, pends, predrop) = match op {
+    let phase = || -> String {
+        if op == "complete_multipart_upload" {
+            format!("P{}", nparts_uploaded.saturating_sub(part_files_left()))
+        } else {
+            format!("B{}", progress.load(Ordering::SeqCst))
+        }
+    };
+    let body = |frames: Vec<Option<Vec<u8>>>| {
+        StreamingBlob::wrap(FrameStream { frames, next: 0, armed: false, pulled: pulled.clone(), progress: progress.clone() })
+    };
+    let (code, pends, predrop, dphase) = match op {
         "put_object" => {
             let input = PutObjectInput::builder()
                 .bucket("b".to_owned())
-                .key("obj".to_owned())
+                .key(key.to_owned())
                 .body(Some(body(frames.to_vec())))
                 .metadata(new_metadata(hasmeta))
                 .checksum_crc32(ck.0.clone())
@@ -434,8 +481,8 @@ fn run_single(
                 .checksum_sha256(ck.3.clone())
                 .build()
                 .unwrap();
-            let d = drive(fs.put_object(req(input)), mode, &snapshot);
-            (d.result.as_ref().map_or_else(|| "DROPPED".to_owned(), code_of), d.pends, d.predrop)
+            let d = drive(fs.put_object(req(input)), mode, &snapshot, &phase);
+            (d.result.as_ref().map_or_else(|| "DROPPED".to_owned(), code_of), d.pends, d.predrop, d.phase)
         }
         "upload_part" => {
             let input = UploadPartInput::builder()
@@ -446,8 +493,8 @@ fn run_single(
                 .body(Some(body(frames.to_vec())))
                 .build()
                 .unwrap();
-            let d = drive(fs.upload_part(req(input)), mode, &snapshot);
-            (d.result.as_ref().map_or_else(|| "DROPPED".to_owned(), code_of), d.pends, d.predrop)
+            let d = drive(fs.upload_part(req(input)), mode, &snapshot, &phase);
+            (d.result.as_ref().map_or_else(|| "DROPPED".to_owned(), code_of), d.pends, d.predrop, d.phase)
         }
         _ => {
             // upload the parts that exist (directly as part files: the upload path is exercised by `upload_part`)
@@ -461,15 +508,16 @@ fn run_single(
                 .collect();
             let input = CompleteMultipartUploadInput::builder()
                 .bucket("b".to_owned())
-                .key("obj".to_owned())
+                .key(key.to_owned())
                 .upload_id(upload_id.clone())
                 .multipart_upload(Some(CompletedMultipartUpload { parts: Some(parts) }))
                 .build()
                 .unwrap();
-            let d = drive(fs.complete_multipart_upload(req(input)), mode, &snapshot);
-            (d.result.as_ref().map_or_else(|| "DROPPED".to_owned(), code_of), d.pends, d.predrop)
+            let d = drive(fs.complete_multipart_upload(req(input)), mode, &snapshot, &phase);
+            (d.result.as_ref().map_or_else(|| "DROPPED".to_owned(), code_of), d.pends, d.predrop, d.phase)
         }
     };
+    let end_phase = dphase.unwrap_or_else(&phase);
     disk.settle();
     let extra = if op == "complete_multipart_upload" {
         let rec = root.join(format!(".upload-{upload_id}.json")).exists();
@@ -489,6 +537,8 @@ fn run_single(
         predrop.unwrap_or_else(|| "-".to_owned()),
         pends.to_string(),
         extra,
+        end_phase,
+        disk.pdir().to_string(),
     ]
 }
 
@@ -514,7 +564,7 @@ fn run_concurrent(rt: &tokio::runtime::Runtime, root: &Path, prev: bool, frames:
                 for _ in 0..yields {
                     tokio::task::yield_now().await;
                 }
-                let body = StreamingBlob::wrap(FrameStream { frames: frs, next: 0, armed: false, pulled: Arc::new(AtomicUsize::new(0)) });
+                let body = StreamingBlob::wrap(FrameStream { frames: frs, next: 0, armed: false, pulled: Arc::new(AtomicUsize::new(0)), progress: Arc::new(AtomicUsize::new(0)) });
                 let input = PutObjectInput::builder().bucket("b".to_owned()).key("obj".to_owned()).body(Some(body)).build().unwrap();
                 code_of(&fs.put_object(req(input)).await)
             }));
@@ -550,13 +600,26 @@ fn run_concurrent(rt: &tokio::runtime::Runtime, root: &Path, prev: bool, frames:
         "-".to_owned(),
         "0".to_owned(),
         which,
+        "B2".to_owned(),
+        "1".to_owned(),
     ]
 }
 
 fn generate(rng: &mut Rng, n: u64, tier: &str, emit: &mut dyn FnMut(Vec<String>)) {
     let fr = |v: &[Option<&[u8]>]| frames_hex(&v.iter().map(|x| x.map(<[u8]>::to_vec)).collect::<Vec<_>>());
+    let mkk = |op: &str, prev: &str, frames: String, fault: String, hasmeta: bool, big: bool, keymode: &str| -> Vec<String> {
+        vec![
+            op.to_owned(),
+            prev.to_owned(),
+            frames,
+            fault,
+            u8::from(hasmeta).to_string(),
+            u8::from(big).to_string(),
+            keymode.to_owned(),
+        ]
+    };
     let mk = |op: &str, prev: &str, frames: String, fault: String, hasmeta: bool, big: bool| -> Vec<String> {
-        vec![op.to_owned(), prev.to_owned(), frames, fault, u8::from(hasmeta).to_string(), u8::from(big).to_string()]
+        mkk(op, prev, frames, fault, hasmeta, big, "plain")
     };
     let thorough = tier == "thorough";
     let a: &[u8] = b"alpha-";
@@ -610,6 +673,35 @@ fn generate(rng: &mut Rng, n: u64, tier: &str, emit: &mut dyn FnMut(Vec<String>)
             emit(mk("put_object", prev, fr(&frame_sets[2]), fault.into(), false, false));
         }
         emit(mk("upload_part", prev, fr(&frame_sets[2]), "destdir".into(), false, false));
+        // ---- the final steps, inside `FileWriter::done()`: `create_dir_all(parent)` and the rename, failing or
+        // interrupted. parentfile: create_dir_all fails; destdir: the rename fails; newparent: both succeed and
+        // the point between them is visible on disk (the new directory). Every suspension point is swept.
+        for fs in [&frame_sets[0], &frame_sets[1], &frame_sets[2]] {
+            for hasmeta in [false, true] {
+                for keymode in ["parentfile", "newparent"] {
+                    emit(mkk("put_object", prev, fr(fs), "none".into(), hasmeta, false, keymode));
+                }
+                emit(mk("put_object", prev, fr(fs), "destdir".into(), hasmeta, false));
+            }
+            emit(mk("upload_part", prev, fr(fs), "destdir".into(), false, false));
+        }
+        for hasmeta in [false, true] {
+            for keymode in ["parentfile", "newparent"] {
+                emit(mkk("complete_multipart_upload", prev, fr(&[Some(a)]), "none".into(), hasmeta, false, keymode));
+                emit(mkk("complete_multipart_upload", prev, fr(&[Some(a), Some(b)]), "none".into(), hasmeta, true, keymode));
+            }
+            emit(mk("complete_multipart_upload", prev, fr(&[Some(a), Some(b)]), "destdir".into(), hasmeta, true));
+        }
+        let maxq = if thorough { 16 } else { 12 };
+        for p in 1..=maxq {
+            for keymode in ["newparent", "parentfile"] {
+                for kind in ["drop-woken", "drop-inflight"] {
+                    emit(mkk("put_object", prev, fr(&frame_sets[2]), format!("{kind}:{p}"), true, false, keymode));
+                    emit(mkk("put_object", prev, fr(&frame_sets[0]), format!("{kind}:{p}"), false, false, keymode));
+                    emit(mkk("complete_multipart_upload", prev, fr(&[Some(a)]), format!("{kind}:{p}"), true, false, keymode));
+                }
+            }
+        }
         // ---- complete_multipart_upload: one frame per part
         for hasmeta in [false, true] {
             emit(mk("complete_multipart_upload", prev, fr(&[Some(a)]), "none".into(), hasmeta, false));
